@@ -24,6 +24,7 @@ from .qactivation import quantize_activation
 from .qbytes import QBytesTensor
 from .qtensor import QTensor, qfallback
 from .qtype import qint8
+from .quantizers import SymmetricQuantizer
 
 
 __all__ = ["get_qbytestensor_op_dispatch", "register_qbytestensor_op"]
@@ -118,6 +119,14 @@ def clone(op, t, memory_format=torch.preserve_format):
 
 @register_qbytestensor_op([torch.ops.aten.copy_])
 def copy_(op, dest, src):
+    if not isinstance(dest, QBytesTensor):
+        # Copying a quantized Tensor into a float Tensor
+        return op(dest, src.dequantize())
+    if not isinstance(src, QBytesTensor):
+        # Copying a float Tensor into a quantized Tensor: quantize it with the destination scale
+        src = SymmetricQuantizer.apply(src.to(dest.dtype).expand(dest.size()), dest.qtype, dest.axis, dest._scale)
+        dest._data = op(dest._data, src._data)
+        return dest
     assert dest.qtype == src.qtype
     dest._data = op(dest._data, src._data)
     dest._scale = op(dest._scale, src._scale)
